@@ -88,6 +88,80 @@ pub proof fn lemma_pair_query(q: Query, pid: Seq<char>, tid: Seq<char>)
     }
 }
 
+// ---- delivery callback with its monitor (R20: `F: Fn(&Message)` -> `F: Deliver`, `f(&m.into())` -> `f.call(..ghost..)`)
+pub open spec fn deliverable(msg: Message, row: data::Message, max: i32, thr: int) -> bool {
+    // the row was waiting (neither acknowledged nor closed), stale, below the retry limit; the delivery carries the same id and
+    // content with the retry count one higher
+    &&& due(row, thr)
+    &&& row.retry_times < max
+    &&& exists|t: i64| msg == event_of_row(retried(row, t))
+}
+pub trait Deliver {
+    spec fn pre(&self, msg: Message, row: data::Message, max: i32, thr: int) -> bool;
+    fn call(&self, msg: &Message, Ghost(row): Ghost<data::Message>, Ghost(max): Ghost<i32>, Ghost(thr): Ghost<int>)
+        requires self.pre(*msg, row, max, thr);
+}
+pub open spec fn bumped(a: data::Message, b: data::Message, max: i32) -> bool {
+    (a.retry_times < max && b == retried(a, b.update_time)) || (a.retry_times >= max && b == errored(a, b.update_time))
+}
+pub open spec fn msg_due(thr: int) -> spec_fn(data::Message) -> bool { |m: data::Message| due(m, thr) }
+pub open spec fn due_query(q: Query, thr: int) -> bool {
+    q.conds@.len() == 1 && q.conds@[0].r#type == CondType::And && q.conds@[0].conds@.len() == 2 && q.limit == 300
+    && is_expr(q.conds@[0].conds@[0], ExprOp::EQ, "status"@, JsonV::Int(0)) && is_expr(q.conds@[0].conds@[1], ExprOp::LT, "update_time"@, JsonV::Int(thr))
+}
+pub proof fn lemma_due_query(q: Query, thr: int)
+    requires due_query(q, thr)
+    ensures forall|m: data::Message| #[trigger] query_holds(q, m) <==> msg_due(thr)(m)
+{
+    lemma_keys();
+    assert forall|m: data::Message| #[trigger] query_holds(q, m) <==> msg_due(thr)(m) by {
+        reveal(query_holds); reveal(cond_holds);
+        let c = q.conds@[0];
+        if due(m, thr) {
+            assert forall|i: int| 0 <= i < c.conds@.len() implies expr_holds(#[trigger] c.conds@[i].op, m.field(c.conds@[i].key@), c.conds@[i].value@) by {
+                if i == 0 {} else { assert(i == 1); }
+            }
+            assert(cond_holds(c, m));
+        }
+        if query_holds(q, m) {
+            assert(cond_holds(q.conds@[0], m));
+            assert(expr_holds(c.conds@[0].op, m.field(c.conds@[0].key@), c.conds@[0].value@));
+            assert(expr_holds(c.conds@[1].op, m.field(c.conds@[1].key@), c.conds@[1].value@));
+        }
+    }
+}
+pub open spec fn opt_view(p: Option<String>) -> Option<Seq<char>> { match p { Some(s) => Some(s@), None => None } }
+pub open spec fn msg_in_error(pid: Option<Seq<char>>) -> spec_fn(data::Message) -> bool {
+    |m: data::Message| m.status == MessageStatus::Error && (pid is Some ==> m.pid@ == pid->Some_0)
+}
+pub open spec fn error_query(q: Query, pid: Option<Seq<char>>) -> bool {
+    q.conds@.len() == 1 && q.conds@[0].r#type == CondType::And && q.limit == 100000
+    && is_expr(q.conds@[0].conds@[0], ExprOp::EQ, "status"@, JsonV::Int(3))
+    && (pid is None ==> q.conds@[0].conds@.len() == 1)
+    && (pid is Some ==> q.conds@[0].conds@.len() == 2 && is_expr(q.conds@[0].conds@[1], ExprOp::EQ, "pid"@, JsonV::Str(pid->Some_0)))
+}
+pub proof fn lemma_error_query(q: Query, pid: Option<Seq<char>>)
+    requires error_query(q, pid)
+    ensures forall|m: data::Message| #[trigger] query_holds(q, m) <==> msg_in_error(pid)(m)
+{
+    lemma_keys();
+    assert forall|m: data::Message| #[trigger] query_holds(q, m) <==> msg_in_error(pid)(m) by {
+        reveal(query_holds); reveal(cond_holds);
+        let c = q.conds@[0];
+        if msg_in_error(pid)(m) {
+            assert forall|i: int| 0 <= i < c.conds@.len() implies expr_holds(#[trigger] c.conds@[i].op, m.field(c.conds@[i].key@), c.conds@[i].value@) by {
+                if i == 0 {} else { assert(i == 1); }
+            }
+            assert(cond_holds(c, m));
+        }
+        if query_holds(q, m) {
+            assert(cond_holds(q.conds@[0], m));
+            assert(expr_holds(c.conds@[0].op, m.field(c.conds@[0].key@), c.conds@[0].value@));
+            if pid is Some { assert(expr_holds(c.conds@[1].op, m.field(c.conds@[1].key@), c.conds@[1].value@)); }
+        }
+    }
+}
+
 impl Store {
 //@@ extract file=acts/src/cache/store.rs in="impl Store" item="fn set_message" name=Store::set_message
 //@@ spec
@@ -165,6 +239,183 @@ impl Store {
                 assert(msg_of_pair(pid@, tid@)(old(st).messages[k]));
                 let j = choose|j: int| 0 <= j < rows.len() && (#[trigger] rows[j]).rid() == k;
                 assert(rows[j].id@ == k);
+            }
+        }
+//@@ end
+
+//@@ extract file=acts/src/cache/store.rs in="impl Store" item="fn with_no_response_messages" name=Store::with_no_response_messages
+//@@ rw R20 `F : Fn ( & Message )` => `F: Deliver`
+//@@ rw R20 `f ( & message . into ( ) )` => `f.call(&message.into(), Ghost(*m), Ghost(max_message_retry_times), Ghost(thr))`
+//@@ spec
+    requires
+        old(st).wf(),
+        // clock range (listed assumption): now and the timeout are non-negative, so `now - timeout` does not wrap
+        0 <= timeout_millis, 0 <= old(st).now,
+        // monitor: what may be handed to the delivery callback
+        forall|msg: Message, row: data::Message, thr: int| deliverable(msg, row, max_message_retry_times, thr) ==> #[trigger] f.pre(msg, row, max_message_retry_times, thr),
+    ensures
+        //# K2-frame
+        others_same(*old(st), *final(st)) && final(st).messages.dom() == old(st).messages.dom(),
+        //# K2-not-due-untouched
+        forall|k: Seq<char>| old(st).messages.dom().contains(k) && !due(old(st).messages[k], old(st).now - timeout_millis) ==> final(st).messages[k] == old(st).messages[k],
+        //# K2-retry-step
+        forall|k: Seq<char>| old(st).messages.dom().contains(k) ==> final(st).messages[k] == old(st).messages[k]
+            || bumped(old(st).messages[k], final(st).messages[k], max_message_retry_times),
+        //# K2-acked-closed-silent
+        forall|k: Seq<char>| old(st).messages.dom().contains(k) && old(st).messages[k].status != MessageStatus::Created ==> final(st).messages[k] == old(st).messages[k],
+//@@ proof before=query#1
+        let ghost thr: int = old(st).now - timeout_millis;
+        proof {
+            assert(due_query(q, thr));
+            lemma_due_query(q, thr);
+        }
+//@@ proof after=query#1
+        proof { lemma_query_rows(old(st).messages, q, messages.rows@, msg_due(thr)); }
+//@@ loop 1
+        invariant
+            //# K2-inv-frame
+            others_same(*old(st), *st) && st.messages.dom() == old(st).messages.dom() && old(st).wf() && thr == old(st).now - timeout_millis && __v1@ == messages.rows@,
+            //# K2-inv-monitor
+            forall|msg: Message, row: data::Message, thr: int| deliverable(msg, row, max_message_retry_times, thr) ==> #[trigger] f.pre(msg, row, max_message_retry_times, thr),
+            //# K2-inv-rows
+            sel_sound(old(st).messages, __v1@, msg_due(thr)) && sel_distinct(__v1@),
+            //# K2-inv-untouched
+            forall|k: Seq<char>| old(st).messages.dom().contains(k) && !msg_due(thr)(old(st).messages[k]) ==> #[trigger] st.messages[k] == old(st).messages[k],
+            //# K2-inv-pending
+            forall|j: int| __i1 <= j < __v1@.len() ==> st.messages[(#[trigger] __v1@[j]).id@] == old(st).messages[__v1@[j].id@],
+            //# K2-inv-step
+            forall|k: Seq<char>| old(st).messages.dom().contains(k) ==> #[trigger] st.messages[k] == old(st).messages[k]
+                || bumped(old(st).messages[k], st.messages[k], max_message_retry_times),
+//@@ proof after=update#1
+                proof {
+                    let i = __i1 as int - 1;
+                    assert(old(st).messages[__v1@[i].rid()] == __v1@[i]);
+                    assert(msg_due(thr)(__v1@[i]));
+                    assert forall|j: int| i + 1 <= j < __v1@.len() implies st.messages[(#[trigger] __v1@[j]).id@] == old(st).messages[__v1@[j].id@] by {
+                        assert(__v1@[i].rid() != __v1@[j].rid());
+                    }
+                }
+//@@ proof before=call#1
+                proof {
+                    let i = __i1 as int - 1;
+                    assert(msg_due(thr)(__v1@[i]));
+                    assert(message == retried(*m, message.update_time));
+                    assert(event_of_row(message) == event_of_row(retried(*m, message.update_time)));
+                }
+//@@ proof after=update#2
+                proof {
+                    let i = __i1 as int - 1;
+                    assert(old(st).messages[__v1@[i].rid()] == __v1@[i]);
+                    assert(msg_due(thr)(__v1@[i]));
+                    assert forall|j: int| i + 1 <= j < __v1@.len() implies st.messages[(#[trigger] __v1@[j]).id@] == old(st).messages[__v1@[j].id@] by {
+                        assert(__v1@[i].rid() != __v1@[j].rid());
+                    }
+                }
+//@@ end
+
+//@@ extract file=acts/src/cache/store.rs in="impl Store" item="fn resend_error_messages" name=Store::resend_error_messages
+//@@ spec
+    requires
+        old(st).wf(),
+        sel_count(old(st).messages, msg_in_error(None)) <= 100000,
+    ensures
+        //# K4-frame
+        others_same(*old(st), *final(st)) && final(st).messages.dom() == old(st).messages.dom(),
+        //# K4-only-error-rows
+        forall|k: Seq<char>| old(st).messages.dom().contains(k) && old(st).messages[k].status != MessageStatus::Error ==> final(st).messages[k] == old(st).messages[k],
+        //# K4-redo-step
+        forall|k: Seq<char>| old(st).messages.dom().contains(k) ==> final(st).messages[k] == old(st).messages[k]
+            || final(st).messages[k] == redone(old(st).messages[k], final(st).messages[k].update_time),
+        //# K4-all-redone
+        ret is Ok && old(st).query_ok ==> forall|k: Seq<char>| old(st).messages.dom().contains(k) && old(st).messages[k].status == MessageStatus::Error
+            ==> final(st).messages[k].status == MessageStatus::Created && final(st).messages[k].retry_times == 0,
+//@@ proof after=query#1
+        proof {
+            assert(error_query(q, None));
+            lemma_error_query(q, None);
+            lemma_query_rows(old(st).messages, q, messages.rows@, msg_in_error(None));
+        }
+//@@ loop 1
+        invariant
+            //# K4-inv-frame
+            others_same(*old(st), *st) && st.messages.dom() == old(st).messages.dom() && old(st).wf() && __v1@ == messages.rows@,
+            //# K4-inv-rows
+            sel_sound(old(st).messages, __v1@, msg_in_error(None)) && sel_distinct(__v1@) && sel_complete(old(st).messages, __v1@, msg_in_error(None)),
+            //# K4-inv-untouched
+            forall|k: Seq<char>| old(st).messages.dom().contains(k) && !msg_in_error(None)(old(st).messages[k]) ==> #[trigger] st.messages[k] == old(st).messages[k],
+            //# K4-inv-pending
+            forall|j: int| __i1 <= j < __v1@.len() ==> st.messages[(#[trigger] __v1@[j]).id@] == old(st).messages[__v1@[j].id@],
+            //# K4-inv-step
+            forall|k: Seq<char>| old(st).messages.dom().contains(k) ==> #[trigger] st.messages[k] == old(st).messages[k]
+                || st.messages[k] == redone(old(st).messages[k], st.messages[k].update_time),
+            //# K4-inv-done
+            forall|j: int| 0 <= j < __i1 ==> st.messages[(#[trigger] __v1@[j]).id@].status == MessageStatus::Created && st.messages[__v1@[j].id@].retry_times == 0,
+//@@ proof after=update#1
+        proof {
+            let i = __i1 as int - 1;
+            assert(old(st).messages[__v1@[i].rid()] == __v1@[i]);
+            assert(msg_in_error(None)(__v1@[i]));
+            assert forall|j: int| 0 <= j < i + 1 implies st.messages[(#[trigger] __v1@[j]).id@].status == MessageStatus::Created && st.messages[__v1@[j].id@].retry_times == 0 by {
+                if j < i { assert(__v1@[j].rid() != __v1@[i].rid()); }
+            }
+            assert forall|j: int| i + 1 <= j < __v1@.len() implies st.messages[(#[trigger] __v1@[j]).id@] == old(st).messages[__v1@[j].id@] by {
+                assert(__v1@[i].rid() != __v1@[j].rid());
+            }
+        }
+//@@ proof at=afterloop1
+        proof {
+            assert forall|k: Seq<char>| old(st).messages.dom().contains(k) && old(st).messages[k].status == MessageStatus::Error
+                implies st.messages[k].status == MessageStatus::Created && st.messages[k].retry_times == 0 by {
+                assert(msg_in_error(None)(old(st).messages[k]));
+                let j = choose|j: int| 0 <= j < __v1@.len() && (#[trigger] __v1@[j]).rid() == k;
+                assert(__v1@[j].id@ == k);
+            }
+        }
+//@@ end
+
+//@@ extract file=acts/src/cache/store.rs in="impl Store" item="fn clear_error_messages" name=Store::clear_error_messages
+//@@ spec
+    requires
+        old(st).wf(),
+        sel_count(old(st).messages, msg_in_error(opt_view(pid))) <= 100000,
+    ensures
+        //# K5-frame
+        others_same(*old(st), *final(st)),
+        //# K5-nothing-new-or-changed
+        forall|k: Seq<char>| final(st).messages.dom().contains(k) ==> old(st).messages.dom().contains(k) && final(st).messages[k] == old(st).messages[k],
+        //# K5-only-selected-error-rows-deleted
+        forall|k: Seq<char>| old(st).messages.dom().contains(k) && !msg_in_error(opt_view(pid))(old(st).messages[k]) ==> final(st).messages.dom().contains(k),
+        //# K5-all-deleted
+        ret is Ok && old(st).query_ok ==> forall|k: Seq<char>| old(st).messages.dom().contains(k) && msg_in_error(opt_view(pid))(old(st).messages[k]) ==> !final(st).messages.dom().contains(k),
+//@@ proof after=query#1
+        proof {
+            assert(error_query(q, opt_view(pid)));
+            lemma_error_query(q, opt_view(pid));
+            lemma_query_rows(old(st).messages, q, messages.rows@, msg_in_error(opt_view(pid)));
+        }
+//@@ loop 1
+        invariant
+            //# K5-inv-frame
+            others_same(*old(st), *st) && old(st).wf() && __v1@ == messages.rows@,
+            //# K5-inv-rows
+            sel_sound(old(st).messages, __v1@, msg_in_error(opt_view(pid))) && sel_distinct(__v1@) && sel_complete(old(st).messages, __v1@, msg_in_error(opt_view(pid))),
+            //# K5-inv-kept
+            forall|k: Seq<char>| old(st).messages.dom().contains(k) && !msg_in_error(opt_view(pid))(old(st).messages[k]) ==> #[trigger] st.messages.dom().contains(k),
+            //# K5-inv-same
+            forall|k: Seq<char>| #[trigger] st.messages.dom().contains(k) ==> old(st).messages.dom().contains(k) && st.messages[k] == old(st).messages[k],
+            //# K5-inv-done
+            forall|j: int| 0 <= j < __i1 ==> !st.messages.dom().contains((#[trigger] __v1@[j]).id@),
+//@@ proof after=delete#1
+        proof {
+            let i = __i1 as int - 1;
+            assert(old(st).messages[__v1@[i].rid()] == __v1@[i]);
+            assert(msg_in_error(opt_view(pid))(__v1@[i]));
+        }
+//@@ proof at=afterloop1
+        proof {
+            assert forall|k: Seq<char>| old(st).messages.dom().contains(k) && msg_in_error(opt_view(pid))(old(st).messages[k]) implies !st.messages.dom().contains(k) by {
+                let j = choose|j: int| 0 <= j < __v1@.len() && (#[trigger] __v1@[j]).rid() == k;
+                assert(__v1@[j].id@ == k);
             }
         }
 //@@ end
